@@ -312,6 +312,27 @@ def run(ctx, prog):
     # acknowledgement only after the canonical write: a mutator reports a change (Ok(true) / Ok(n)) only past the success edge of its cold-tier call;
     # whatever it returns without having called the canonical store is `false` / `0` (nothing acknowledged). A fast path that trusts the mirror's
     # metadata ("already equal, nothing to do") acknowledges an update the canonical store never saw.
+    # the mirror follows every canonical removal / change: after the cold-tier call succeeded, the matching hot-tier call runs on EVERY path to a
+    # non-error return (a `&&` short-circuit or an early return that skips it leaves a mirror entry the next drain "repairs" back into the cold tier)
+    FOLLOW = [('TieredEngine::delete', 'HnswBackend::delete', 'HotTier::delete', None),
+              ('TieredEngine::batch_delete', 'HnswBackend::batch_delete', 'HotTier::batch_delete', None),
+              ('TieredEngine::update_metadata', 'HnswBackend::update_metadata', 'HotTier::update_metadata', r'^!bool\[var:existed\]$')]
+    for fn, cold, hot, exempt_rx in FOLLOW:
+        b = ctx.body('C04.R4', fn)
+        if b is None:
+            continue
+        bv = flow.Origin(b, stop_at_vars=True)
+        cc = b.calls_to(cold)
+        hh = b.calls_to(hot)
+        se = [e for c in cc for e in (flow.success_edges(b, c) or [])]
+        ex = [(i_, tg) for i_, blk in enumerate(b.blocks) if blk['t']['k'] == 'switch' for tg, p in flow.switch_edge_predicates(b, i_, bv) if exempt_rx and re.match(exempt_rx, p)]
+        errs = flow.err_blocks(b)
+        starts = [e[1] for e in se]
+        r_ = (b.reach(starts, avoid_blocks=[c.bb for c in hh] + sorted(errs), avoid_edges=ex) | set(starts)) - set(c.bb for c in hh)
+        leak = [x for x in b.return_blocks() if x in r_]
+        ctx.inst('C04.R4', b.short, 'the mirror follows the canonical call on every path', bool(cc) and bool(hh) and bool(se) and not leak,
+                 ('after %s succeeded a return is reachable without %s: %s' % (cold, hot, rt.path_witness(b, rt.find_path(b, starts, leak, avoid_blocks=[c.bb for c in hh] + sorted(errs), avoid_edges=ex))[:6])) if leak else
+                 '%s after every successful %s%s' % (hot, cold, ' (nothing to mirror when the document did not exist)' if exempt_rx else ''))
     CANON = [('TieredEngine::update_metadata', 'HnswBackend::update_metadata'), ('TieredEngine::delete', 'HnswBackend::delete'),
              ('TieredEngine::batch_delete', 'HnswBackend::batch_delete'), ('TieredEngine::insert', 'HnswBackend::insert')]
     for fn, callee in CANON:
